@@ -162,8 +162,11 @@ pub fn write_evidence(
         "wall_s": (wall_s * 100.0).round() / 100.0,
         "violations": violations,
     });
-    let _ = std::fs::create_dir_all("/verif/evidence");
-    let path = format!("/verif/evidence/{}.json", info.property);
+    // (background exploration runs can be pointed elsewhere so that they do not overwrite the
+    // evidence of the registered commands)
+    let dir = std::env::var("VFSMC_EVIDENCE_DIR").unwrap_or_else(|_| "/verif/evidence".to_string());
+    let _ = std::fs::create_dir_all(&dir);
+    let path = format!("{}/{}.json", dir, info.property);
     std::fs::write(&path, serde_json::to_string_pretty(&ev).unwrap()).expect("MACHINERY: cannot write evidence");
 }
 
